@@ -175,9 +175,7 @@ pub fn shrink(trace: &Trace, prop: &str, check: &str, budget: usize) -> Trace {
                         if calls[k].kind != crate::trace::WKind::Str {
                             let mut c = best.clone();
                             let mut cs = calls.clone();
-                            if cs[k].kind.appends_lf() {
-                                cs[k].text.push('\n');
-                            }
+                            cs[k].text = cs[k].spec_text();
                             cs[k].kind = crate::trace::WKind::Str;
                             c.events[i].ev = Ev::Write(cs, *ret);
                             cands.push(c);
